@@ -1,13 +1,13 @@
 SPECIFICATION Spec
 CONSTANTS
-  CodeTTL = 1
-  TokenTTL = 2
+  CodeTTL = 2
+  TokenTTL = 3
   MaxTokens = 2
   Variant = "code"
   T0 = 1
   SeedMode = "plain"
   MaxNow = 6
-  MaxCodes = 3
+  MaxCodes = 2
   MaxIssued = 3
   ReqRoles <- ReqRolesSmall
   Kinds = {"status"}
